@@ -1,4 +1,5 @@
 import AioProps.C06Lemmas
+import AioModel.C06Http
 /-!
 # C06 — property theorems (client connection reuse never mixes responses)
 
@@ -325,6 +326,32 @@ theorem getLoop_same_key (l : List Nat) (w w' : World P) (k : Key) (j c : Nat)
             simp at h
             exact ih _ h
       · exact ih w h
+
+/-! ## tables and tokens the reuse decision depends on -/
+
+/-- **Where a response ends.** The table `EMPTY_BODY_STATUS_CODES` (regenerated from the source on
+every run) that lets the parser end a response at the empty line and lets the protocol hand
+out `EMPTY_PAYLOAD` is exactly RFC 9112 §6.3: 1xx, 204, 304.  Any other status with
+`Content-Length`/chunked content is read by its framing - otherwise its body bytes would be
+left on the connection as "another response". -/
+theorem emptyBody_rfc9112 :
+    Gen.Http.emptyBodyStatus = [(100, 199), (204, 204), (304, 304)] ∧
+    (List.range 1000).all (fun code =>
+      Http.isEmptyBodyStatus code == (decide (100 ≤ code ∧ code < 200) || code == 204 || code == 304)) = true := by
+  constructor
+  · rfl
+  · decide +kernel
+
+/-- **Protocol switch spellings.** The parser model recognises the upgrade tokens
+case-insensitively (`WebSocket`, `WEBSOCKET`, `TCP` …), so a `101` with any spelling marks the
+connection upgraded, and an upgraded connection is closed at release (`release_dirty_closes`). -/
+theorem upgrade_token_case_insensitive :
+    Http.supportedUpgrade [(ascii "Upgrade", ascii "WebSocket")] = true ∧
+    Http.supportedUpgrade [(ascii "upgrade", ascii "WEBSOCKET")] = true ∧
+    Http.supportedUpgrade [(ascii "Upgrade", ascii "websocket")] = true ∧
+    Http.supportedUpgrade [(ascii "Upgrade", ascii "TCP")] = true ∧
+    Http.supportedUpgrade [(ascii "Upgrade", ascii "h2c")] = false := by
+  decide +kernel
 
 /-! ## Known findings: kernel-checked counterexamples on the model of the unchanged code
 (`fix := false`), instantiated with the token parser `toyParser` -/
